@@ -123,6 +123,8 @@ def corner_requests(rng, n):
     for _ in range(n):
         for which, ctor in (("q1", corner_q1), ("q0", corner_q0)):
             lo, hi, y = ctor(rng)
+            if rng.random() < 0.5:
+                lo = lo + rng.randrange(0, hi - lo)          # a random point inside the window, not only its start
             pr = product_in(rng, lo, hi)
             if pr:
                 x1, x2 = pr
@@ -375,3 +377,68 @@ def est_gt_b_requests(rng, n, fD):
                         out.append("divr vv %s %s %d" % (fD(x, nn + q - k), fD(rng.choice((1, -1)) * y, q), nn))
                         break
     return [r for r in out if r], stats
+
+
+def exact_multiple_requests(rng, n, fD):
+    """Divisions in which the two-word value a quotient digit is estimated from is an EXACT multiple k * yn1 of the
+    divisor's normalised high word (estimate remainder 0) while the normalised low word is tiny (0, 2, 4, ...), so that the
+    estimate is already the true digit - the case in which reciprocal-based estimators need their last, rare fix-up.
+    First ('q1') and second ('q0', first digit 0) quotient digit; kernel and API requests."""
+    out = []
+    for _ in range(n):
+        for which in ("q1", "q0"):
+            n_bits = rng.choice((1, 1, 2, 3, 8, 20, 40))
+            z = rng.random()
+            if z < 0.45:
+                yn1 = (1 << 63) + rng.getrandbits(rng.randrange(2, 52))      # barely normalised: just above 2^63
+            elif z < 0.6:
+                yn1 = rng.randrange(1 << 63, int(1.01 * (1 << 63)))
+            elif z < 0.7:
+                yn1 = rng.choice(((1 << 63) + rng.randrange(0, 4), (1 << 64) - 1 - rng.randrange(0, 4)))
+            else:
+                yn1 = rng.randrange(1 << 63, 1 << 64)
+            yn0 = rng.choice((0, 1, 2, 3)) << n_bits
+            if yn0 >> 64:
+                continue
+            yn = (yn1 << 64) | yn0
+            y = yn >> n_bits
+            kmax = (1 << 63) if which == "q1" else (1 << 62)
+            if yn0:
+                kmax = min(kmax, ((1 << 64) - 1) // yn0)                         # k * yn0 must fit the next word
+            z = rng.random()
+            if z < 0.5:
+                k = max(1, kmax - 1 - rng.getrandbits(rng.randrange(1, max(2, kmax.bit_length() - 1))))   # near its maximum
+            elif z < 0.6:
+                k = rng.choice((1, 2, 3, (1 << 32) - 1, 1 << 32, (1 << 58) - 1))
+            else:
+                k = rng.randrange(1, kmax)
+            t = k * yn1
+            if which == "q1":
+                lo_n, hi_n = t << 128, (t + 1) << 128
+            else:
+                lo_n, hi_n = t << 64, (t + 1) << 64
+            lo, hi = -(-lo_n >> n_bits), -(-hi_n >> n_bits)
+            if hi <= lo or (lo >> 128) >= y:
+                continue
+            # aim at a random point inside the window (the words below the estimate numerator must be free to be
+            # large: whether the estimate is the true digit depends on them)
+            if rng.random() < 0.8:
+                lo = lo + rng.randrange(0, hi - lo)
+            pr = product_in(rng, lo, hi)
+            if pr:
+                out.append("k_i256 %d %d %d" % (rng.choice((1, -1)) * pr[0], rng.choice((1, -1)) * pr[1], y))
+            sh = shifted_in(lo, hi, 36)
+            if sh and y <= M:
+                x, kk = sh
+                out.append("k_shdm %d %d %d" % (rng.choice((1, -1)) * x, kk, y))
+                qs = [q for q in range(19) if 0 <= 18 + q - kk <= 18]
+                if qs:
+                    q = rng.choice(qs)
+                    out.append("%s %s %s %s" % (rng.choice(("div", "cdiv")), rng.choice(("vv", "*", "rr")),
+                                                fD(rng.choice((1, -1)) * x, 18 + q - kk), fD(rng.choice((1, -1)) * y, q)))
+                for _try in range(10):
+                    nn, q = rng.randrange(0, 19), rng.randrange(0, 19)
+                    if 0 <= nn + q - kk <= 18:
+                        out.append("divr vv %s %s %d" % (fD(x, nn + q - kk), fD(rng.choice((1, -1)) * y, q), nn))
+                        break
+    return out
